@@ -463,6 +463,7 @@ def counted_while(st):
 
 
 _STORED = {}
+_FLOATS = {}
 
 
 def _stored_names(fn):
@@ -507,6 +508,12 @@ class Ev3(AutoEvaluator):
 
     # ------------------------------------------------------------ names / buffers
     def _ev(self, node):
+        if isinstance(node, ast.Constant) and isinstance(node.value, float):
+            # the exact decimal value of a float literal is read from the source text: once per literal, not once per evaluation
+            c = _FLOATS.get(id(node))
+            if c is None or c[0] is not node:
+                c = _FLOATS[id(node)] = (node, super()._ev(node))
+            return c[1]
         if isinstance(node, ast.Name) and node.id in self.buffers:
             b = self.bname(node.id)
             return self.env.get("<cur:%s>" % b, F.sym(b))
